@@ -182,6 +182,16 @@ LEAF_CLASSES = ['int', 'str', 'bytes', 'float', 'bool', 'complex', 'VBase', 'VDe
 TYPEVARS = {'VT': VT, 'VTB': VTB, 'VTC': VTC}
 NEWTYPES = {'VNTInt': (VNTInt, ['cls', 'int']), 'VNTBase': (VNTBase, ['cls', 'VBase'])}
 PROTOS = {'VSupportsFoo': VSupportsFoo, 'SupportsInt': typing.SupportsInt}
+# PEP 695 type aliases (what "type ANumber = int | float | complex" creates) -> (alias object, the node it stands for)
+ALIASES = {
+    'ANumber': (typing.TypeAliasType('ANumber', int | float | complex),
+                ['union', [['cls', 'int'], ['cls', 'float'], ['cls', 'complex']], 'P']),
+    'AWide': (typing.TypeAliasType('AWide', typing.Union[int, str, bytes, VBase, None]),
+              ['union', [['cls', 'int'], ['cls', 'str'], ['cls', 'bytes'], ['cls', 'VBase'], ['none']], 'U']),
+    'AOptBase': (typing.TypeAliasType('AOptBase', typing.Optional[VBase]), ['union', [['cls', 'VBase']], 'O']),
+    'AIntList': (typing.TypeAliasType('AIntList', list[int]), ['seq', 'list', ['cls', 'int']]),
+    'AStr': (typing.TypeAliasType('AStr', str), ['cls', 'str']),
+}
 
 # family name -> (hint factory, origin class for isinstance)
 SEQ_FAMS = {
@@ -217,6 +227,7 @@ SHALLOW = {
     'Generator[int,None,None]': (cabc.Generator[int, None, None], cabc.Generator),
     'Callable[[int],str]': (cabc.Callable[[int], str], cabc.Callable),
     'Callable[...,Any]': (typing.Callable[..., Any], cabc.Callable),
+    'Callable[...,object]': (typing.Callable[..., object], cabc.Callable),
     'Hashable': (cabc.Hashable, cabc.Hashable),
     'Sized': (cabc.Sized, cabc.Sized),
     'ItemsView[str,int]': (cabc.ItemsView[str, int], cabc.ItemsView),
@@ -349,6 +360,8 @@ def build(node):
         return TYPEVARS[node[1]]
     if k == 'nt':
         return NEWTYPES[node[1]][0]
+    if k == 'alias':
+        return ALIASES[node[1]][0]
     if k == 'ann':
         return Annotated[(build(node[1]),) + tuple(_validator(v) for v in node[2])]
     if k == 'proto':
@@ -433,6 +446,8 @@ def conforms(node, x):
         return isinstance(x, (int, str))
     if k == 'nt':
         return conforms(NEWTYPES[node[1]][1], x)
+    if k == 'alias':
+        return conforms(ALIASES[node[1]][1], x)
     if k == 'ann':
         return conforms(node[1], x) and all(validator_holds(v, x) for v in node[2])
     if k == 'proto':
@@ -498,6 +513,8 @@ def must_reject(node, x):
         return not isinstance(x, (int, str))
     if k == 'nt':
         return must_reject(NEWTYPES[node[1]][1], x)
+    if k == 'alias':
+        return must_reject(ALIASES[node[1]][1], x)
     if k == 'ann':
         return must_reject(node[1], x) or not all(validator_holds(v, x) for v in node[2])
     if k == 'mylist':
@@ -659,6 +676,8 @@ def hashable_node(node):
         return node[1] not in ('list', 'dict', 'set', 'VMyList')
     if k in ('none', 'any', 'lit', 'type', 'tv', 'nt', 'proto'):
         return True
+    if k == 'alias':
+        return hashable_node(ALIASES[node[1]][1])
     if k in ('union', 'tupf'):
         return all(hashable_node(m) for m in node[1])
     if k in ('tupv', 'ann'):
@@ -666,7 +685,7 @@ def hashable_node(node):
     if k == 'reit':
         return node[1] in ('frozenset', 'FrozenSet') and hashable_node(node[2])
     if k == 'shallow':
-        return node[1] in ('Hashable', 'Callable[[int],str]', 'Callable[...,Any]', 'VBox[int]')
+        return node[1] in ('Hashable', 'Callable[[int],str]', 'Callable[...,Any]', 'Callable[...,object]', 'VBox[int]')
     return False
 
 
@@ -696,6 +715,7 @@ def _leaf(hashable):
         st.lists(_lit_vals, min_size=1, max_size=3, unique_by=repr).map(lambda l: ['lit', l]),
         st.sampled_from(sorted(TYPEVARS)).map(lambda t: ['tv', t]),
         st.sampled_from(sorted(NEWTYPES)).map(lambda t: ['nt', t]),
+        st.sampled_from(sorted(a for a in ALIASES if not hashable or a != 'AIntList')).map(lambda t: ['alias', t]),
         st.sampled_from(sorted(PROTOS)).map(lambda t: ['proto', t]),
         st.sampled_from([[None, 'bare'], [None, 'TAny'], [['cls', 'int'], 'T'], [['cls', 'int'], 't'],
                          [['cls', 'str'], 't'], [['cls', 'VBase'], 'T'], [['cls', 'VBase'], 't'],
@@ -952,6 +972,8 @@ def conforming(draw, node, hashable=False, size=None):
         return draw(st.one_of(st.integers(-3, 3).map(lambda i: ['i', i]), _small_text.map(lambda s: ['s', s])))
     if k == 'nt':
         return draw(conforming(NEWTYPES[node[1]][1], hashable, size))
+    if k == 'alias':
+        return draw(conforming(ALIASES[node[1]][1], hashable, size))
     if k == 'ann':
         # a few tries to satisfy the validators too; callers re-check with conforms() and discard otherwise
         v = None
@@ -1003,8 +1025,8 @@ def violating(draw, node, hashable=False):
         modes += ['len', 'pos', 'pos'] if node[1] else ['len']
     if k == 'union':
         modes += ['member']
-    if k in ('ann', 'nt'):
-        modes += ['inner']
+    if k in ('ann', 'nt', 'alias'):
+        modes += ['inner', 'inner'] if k == 'alias' else ['inner']
     mode = draw(st.sampled_from(modes))
     if mode == 'top':
         v = draw(rejecting_leaf(node, hashable))
@@ -1073,7 +1095,7 @@ def violating(draw, node, hashable=False):
         sub = draw(violating(draw(st.sampled_from(node[1])), hashable))
         return None if sub is None else (sub[0], {'mode': 'member', 'kind': k, 'inner': sub[1]})
     if mode == 'inner':
-        inner = node[1] if k == 'ann' else NEWTYPES[node[1]][1]
+        inner = node[1] if k == 'ann' else NEWTYPES[node[1]][1] if k == 'nt' else ALIASES[node[1]][1]
         sub = draw(violating(inner, hashable))
         return None if sub is None else (sub[0], {'mode': 'inner', 'kind': k, 'inner': sub[1]})
     raise ValueError(mode)
